@@ -61,7 +61,7 @@ META = {
     "level_note": "Trusted: CPython's sys.monitoring LINE events; vf.gen.pygen's renderer; vf.session (replicates generator setup).",
 }
 PLAN = {
-    "quick": {"shards": 16, "examples": 128, "shrink_sigs": 2, "shrink_seconds": 25, "shrink_calls": 40},
+    "quick": {"shards": 16, "examples": 96, "shrink_sigs": 2, "shrink_seconds": 25, "shrink_calls": 40},
     "thorough": {"shards": 16, "examples": 6000, "timeout": 3300, "shrink_sigs": 4, "shrink_seconds": 150, "shrink_calls": 400},
 }
 CHILD_TIMEOUT = 240.0
@@ -238,7 +238,7 @@ def _check_window(res: dict[str, Any], mode: str, sp: Any, view: dict[str, Any],
     if view["has_lines"]:
         missing = sorted((executed_witness & coverable) - view["lines"])
         if missing:
-            res["failures"].append([f"{mode}|witness-line-not-reported|after:{after}",
+            res["failures"].append([f"{mode}|witness-line-not-reported|after:{_coarse(after)}",
                                     f"lines {missing} were executed by the interpreter after a caught hazard and are line goals, but "
                                     f"are not reported (covered_line_ids / executed_instructions)\n{_numbered(src, missing[0])}"])
     by_line: dict[int, list[int]] = {}
@@ -249,7 +249,7 @@ def _check_window(res: dict[str, Any], mode: str, sp: Any, view: dict[str, Any],
         for pid in by_line.get(ln, []):
             rec = view["preds"].get(pid)
             if rec is None or not rec[3] or not (rec[1] or rec[2]):  # executed, and some outcome recorded as taken
-                res["failures"].append([f"{mode}|witness-branch-not-reported|after:{after}",
+                res["failures"].append([f"{mode}|witness-branch-not-reported|after:{_coarse(after)}",
                                         f"predicate {pid} on executed witness line {ln}: reported {rec}\n{_numbered(src, ln)}"])
                 break
 
@@ -269,6 +269,11 @@ def _first_caught(case: dict[str, Any], fidx: int, region: dict[str, Any], truth
     j = int(text[len("caught"):text.index(" ")])
     hz = case["funcs"][fidx][j]
     return f"{hz['kind']}/{hz['form']}"
+
+
+def _coarse(after: str) -> str:
+    """Hazard class for signatures: cmp | user | attr | call | none (kind and syntactic form only go into the labels)."""
+    return after.split("-", 1)[0].split("/", 1)[0]
 
 
 def _child(case: dict[str, Any], scratch: str) -> dict[str, Any]:  # noqa: C901, PLR0912, PLR0915
@@ -333,7 +338,7 @@ def _child(case: dict[str, Any], scratch: str) -> dict[str, Any]:  # noqa: C901,
                 res["labels"].append("excluded:behaviour-diverged")  # C01's subject
                 continue
             if tracer.is_disabled():
-                res["failures"].append([f"direct|tracer-left-disabled|after:{afters[idx]}",
+                res["failures"].append([f"direct|tracer-left-disabled|after:{_coarse(afters[idx])}",
                                         f"is_disabled() is True after h{c['f']}({c['a']!r}, {c['b']!r}, {c['w']!r}) returned {got}\n"
                                         f"{_numbered(src, regions['h' + str(c['f'])]['lo'] + 3)}"])
             view = _trace_view(sp, tracer.get_trace(), path, metrics)
@@ -391,7 +396,7 @@ def _session_part(case: dict[str, Any], calls: list[dict[str, Any]], res: dict[s
             res["evaluations"] += 1
             region = regions[f"h{c['f']}"]
             if idx < len(ex.before) and idx < len(ex.after) and ex.before[idx] != ex.after[idx]:
-                res["failures"].append([f"testcase|enabled-state-changed-by-statement|after:{afters[idx]}",
+                res["failures"].append([f"testcase|enabled-state-changed-by-statement|after:{_coarse(afters[idx])}",
                                         f"statement {idx} (h{c['f']}({c['a']!r}, {c['b']!r}, {c['w']!r})): tracer disabled at start = "
                                         f"{ex.before[idx]}, at end = {ex.after[idx]}\n{_numbered(src, region['lo'] + 3)}"])
             elif idx < len(ex.before) and ex.before[idx]:
@@ -428,7 +433,7 @@ def _session_part(case: dict[str, Any], calls: list[dict[str, Any]], res: dict[s
             p_alone = {pid: rec for pid, rec in alone["preds"].items() if isinstance(rec[0], int) and rec[0] in rng}
             if in_long != in_alone or p_long != p_alone:
                 prev = next((a for a in reversed(afters[:idx]) if a != "none"), "none")
-                res["failures"].append([f"testcase|statement-coverage-differs-from-fresh-execution|after:{prev}",
+                res["failures"].append([f"testcase|statement-coverage-differs-from-fresh-execution|after:{_coarse(prev)}",
                                         f"statement {idx} = {fname}({c['a']!r}, {c['b']!r}, {c['w']!r}): lines only when alone "
                                         f"{sorted(in_alone - in_long)}, only in the long test case {sorted(in_long - in_alone)}; predicates "
                                         f"alone {p_alone} vs long {p_long}\n{_numbered(src, region['lo'] + 3)}"])
@@ -444,6 +449,15 @@ def _preload() -> None:
 
     import vf.c01_harness  # noqa: F401
     import vf.session  # noqa: F401
+
+    if not getattr(_preload, "_frozen", False):
+        # every case runs in a forked child: keep the parent's heap out of the child's garbage collections, otherwise each
+        # collection in a child writes to (= copies) every page of the inherited heap
+        import gc
+
+        gc.collect()
+        gc.freeze()
+        _preload._frozen = True  # type: ignore[attr-defined]
 
 
 def evaluate(case: dict[str, Any]) -> Outcome:
